@@ -62,6 +62,11 @@ TARGETS = [
     Target('extract_back_copy', CPP, r'size_t iovector_view::extract_back\(size_t bytes, void\* buf\)', rules=[
         (r'\(char\*&\)buf \+= bytes;', 'buf = (char*)buf + bytes;', 1),
         (r'_this->do_extract_back\(bytes, \[&\].*\}\);', 'do_extract_back_copy(this, bytes, &buf);', 1)]),
+    Target('cb_back_iov', CPP, r'\[&\]\(void\* ptr, size_t size\) __INLINE__', index=3, count=4, rules=[
+        (r'\bbegin\b', '(*c->begin)', 2), (r'\biov->', 'c->iov->', 1), (r'= \{ptr, size\}', '= (struct iovec){ptr, size}', 1)]),
+    Target('extract_back_iov', CPP, r'ssize_t iovector_view::extract_back\(size_t bytes, iovector_view\* iov\)', rules=[
+        (r'_this->do_extract_back\(bytes, \[&\].*\}\);', 'do_extract_back_iov(this, bytes, &ctx_);', 1),
+        (r'iov->iovcnt = 0;', 'iov->iovcnt = 0; struct cbbiov ctx_ = { iov, &begin };', 1)]),
     Target('extract_front_continuous', HDR, r'void\* extract_front_continuous\(size_t bytes\)', index=0, count=2, rules=[
         (r'auto& f = front\(\);', 'struct iovec *f = iovv_front(this);', 1), (r'\bf\.', 'f->', 5),
         (r'(?<![\w>.])empty\(\)', 'iovv_empty(this)', 1), (r'(?<![\w>.])pop_front\(\)', 'iovv_pop_front(this)', 1),
@@ -133,6 +138,8 @@ PROOFS = [
           bound='at most 16 elements (input-size bound; the loop is closed by its invariant), any lengths and byte count'),
     Proof('slice', 'iov.c', 'h_slice', kind='L', min_obligations=10, backend='cadical', defines=['NMAX=16'], timeout=2400, checks=CHECKS,
           bound='at most 16 source elements and 16 output slots (input-size bound; both loops are closed by their invariants), any lengths / offset / count'),
+    Proof('extract_back/iov', 'iov.c', 'h_extract_back_iov', kind='L', min_obligations=10, backend='cadical', defines=['NMAX=16'], timeout=2400, checks=CHECKS,
+          bound='at most 16 elements and output slots (input-size bound), any lengths and byte count'),
     Proof('iov_iterator/ctor', 'iov.c', 'h_it_ctor', kind='L', min_obligations=4, **CV),
     Proof('lemma/pre_mono', 'iov.c', 'lemma_pre_mono', kind='L', min_obligations=3, **CV),
 ]
